@@ -2,12 +2,12 @@
 # tools/seed_check.sh <seed dir name> <CHECK_ID> [tier]  -- run a check against a scratch worktree with the seeded patch
 set -u
 D=/verif/seeded/$1; ID=$2; TIER=${3:-quick}
-WT=/tmp/wt/chk_$1_$ID
+WT=/tmp/wt/chk_$1_$ID; mkdir -p /tmp/wt/ev_$1
 git -C /repo worktree add -q --detach $WT HEAD || exit 2
 git -C $WT apply $D/patch.diff || { git -C /repo worktree remove --force $WT; echo "PATCH DOES NOT APPLY ON HEAD"; exit 2; }
 mkdir -p /tmp/wt/ev
-GNPY_REPO=$WT VERIF_EVIDENCE_DIR=/tmp/wt/ev /verif/check $ID --tier $TIER > /tmp/wt/chk_$1_$ID.log 2>&1; RC=$?
-git -C /repo worktree remove --force $WT
+GNPY_REPO=$WT VERIF_EVIDENCE_DIR=/tmp/wt/ev_$1 VERIF_REPLAY_DIR=/tmp/wt/ev_$1/rp /verif/check $ID --tier $TIER > /tmp/wt/chk_$1_$ID.log 2>&1; RC=$?
+git -C /repo worktree remove --force $WT; rm -rf /tmp/wt/ev_$1
 FPS=$(grep -o 'fingerprint=[^ ]*' /tmp/wt/chk_$1_$ID.log | sort -u | sed 's/fingerprint=//' | tr '\n' ' ')
 /venv/bin/python /verif/tools/seed_meta.py $1 $ID $RC $FPS
 echo "seed=$1 check=$ID tier=$TIER exit=$RC $(grep -c '^VIOLATION' /tmp/wt/chk_$1_$ID.log) violation lines; fingerprints: $(grep -o 'fingerprint=[^ ]*' /tmp/wt/chk_$1_$ID.log | sort -u | tr '\n' ' ')"
